@@ -456,6 +456,8 @@ def scenarios(T, rng, n_random):
              {'kind': 'valid', 'path': '@ABS@/tb', 'lists': random_lists(T, rng)},
              {'kind': 'valid', 'path': './contracts', 'lists': random_lists(T, rng)},
              {'kind': 'valid', 'path': './nowhere', 'lists': random_lists(T, rng)},
+             {'kind': 'valid', 'path': './TB', 'lists': random_lists(T, rng)},
+             {'kind': 'valid', 'path': './Src/Core', 'lists': random_lists(T, rng)},
              {'kind': 'valid', 'path': './tb', 'lists': random_lists(T, rng, empty=True)},
              {'kind': 'valid', 'path': './tb', 'lists': {c: [n for n, _ in T[c]['table']] for c in CATS}},
              {'kind': 'valid', 'path': './tb', 'lists': {c: [n.upper() for n, _ in reversed(T[c]['table'])] for c in CATS}},
@@ -481,7 +483,7 @@ def scenarios(T, rng, n_random):
     return out
 
 
-MARK = {'pa': 'Aflag', 'tb': 'Btoml', 'contracts': 'Cdefault'}
+MARK = {'pa': 'Aflag', 'tb': 'Btoml', 'contracts': 'Cdefault', 'TB': 'Dupper', 'Src/Core': 'Emixed'}
 STALE = 'STALE REPORT left by an earlier run\n'
 
 
@@ -544,7 +546,8 @@ def spec_expect(T, sc, trig_by_name):
     elif sc.flag == 'missing':
         return {'fail': True, 'why': '--path names a directory that does not exist'}
     elif t is not None:
-        d = {'./tb': 'tb', 'tb': 'tb', 'tb/': 'tb', '@ABS@/tb': 'tb', './contracts': 'contracts', './nowhere': None}[t['path']]
+        d = {'./tb': 'tb', 'tb': 'tb', 'tb/': 'tb', '@ABS@/tb': 'tb', './contracts': 'contracts', './nowhere': None,
+             './TB': 'TB', './Src/Core': 'Src/Core'}[t['path']]
         if d is None or (d == 'contracts' and not sc.contracts):
             return {'fail': True, 'why': 'the configured path does not exist'}
     else:
@@ -559,7 +562,7 @@ def spec_expect(T, sc, trig_by_name):
 
 def model_expect(T, scs):
     """Opts.resolve by vm_compute -> list of (kind, path index, opts, vulns, qa, site)"""
-    cands = ['./pa', './does_not_exist', './tb', 'tb', 'tb/', '@ABS@/tb', './contracts', './nowhere']
+    cands = ['./pa', './does_not_exist', './tb', 'tb', 'tb/', '@ABS@/tb', './contracts', './nowhere', './TB', './Src/Core']
     shards = []
     per = max(1, (len(scs) + vlib.NPROC - 1) // vlib.NPROC)
     for k in range(0, len(scs), per):
@@ -652,7 +655,8 @@ def part_runs(rep, ctx, T, cands, sel, only=None):
                 kind, pidx, mo, mv, mq, site = model[idx]
                 if kind == 0:
                     mpath = mcands[pidx] if pidx < len(mcands) else None
-                    mdir = {'./pa': 'pa', './tb': 'tb', 'tb': 'tb', 'tb/': 'tb', '@ABS@/tb': 'tb', './contracts': 'contracts'}.get(mpath)
+                    mdir = {'./pa': 'pa', './tb': 'tb', 'tb': 'tb', 'tb/': 'tb', '@ABS@/tb': 'tb', './contracts': 'contracts',
+                            './TB': 'TB', './Src/Core': 'Src/Core'}.get(mpath)
                     exists = mdir is not None and (mdir != 'contracts' or sc.contracts)
                     msel = set()
                     for c, lst in (('opt', mo), ('vul', mv), ('qa', mq)):
